@@ -306,14 +306,16 @@ class World:
         if t in self.built:
             return self.built[t]
         TR, k = self.TR, t[0]
+        # the constructors take Iterable[Tensor]: about half of the atoms get one-shot iterators (generators) instead of lists
+        gen = (lambda xs: (x for x in xs)) if (sum(v for v in t[1:] if isinstance(v, int)) % 2 == 1) else (lambda xs: xs)
         if k == "I":
-            r = TR.Init(self.keys(t[1]))
+            r = TR.Init(gen(self.keys(t[1])))
         elif k == "D":
-            r = TR.Diagonalize(self.keys(t[1]))
+            r = TR.Diagonalize(gen(self.keys(t[1])))
         elif k == "A":
-            r = TR.Accumulate(self.keys(t[1]))
+            r = TR.Accumulate(gen(self.keys(t[1])))
         elif k == "S":
-            r = TR.Select(self.keys(t[1]), self.keys(t[2]))
+            r = TR.Select(gen(self.keys(t[1])), gen(self.keys(t[2])))
         elif k == "Co":
             a, b = self.construct(t[1]), self.construct(t[2])
             r = a << b
